@@ -34,7 +34,9 @@ META = {
     "rule": "seeded scenarios: 2-8 files under src/ in nested directories (names with spaces, several dots, non-ASCII, "
             "hidden, upper-case extension, a directory named d.lua), non-Lua files and bystanders whose extension only looks "
             "like a Lua one (init.lua~, chunk.luac, impl.lua_old, x.luax, lua, *.lua.bak, BIG.LUA), single-file projects, an "
-            "existing output directory with a dotted name (dist.v2, build/pkg-1.2.0), faulty files (syntax error, missing "
+            "existing output directory with a dotted name (dist.v2, build/pkg-1.2.0), quiet sources (empty, newline only, "
+            "blanks only, comment only - valid empty chunks - and a lone `;`, which Luau rejects), on disk invalid UTF-8 "
+            "inside a string literal and Latin-1 in a comment (valid Lua after a lossy decoding), faulty files (syntax error, missing "
             "require under a bundle configuration, invalid UTF-8 and unwritable destination on disk), 9 input/output "
             "shapes (directory to new/existing directory, in place, onto itself, sub-directory, file to file / existing "
             "directory / new path without extension / in place), bundle on/off, fail-fast on/off; every scenario is run "
@@ -149,20 +151,37 @@ def oracle(rec, run, disk):
             n_err += 1
             if s not in faulty and not (disk and unwritable(rec, o, run)):
                 problems.append(("a file that is not faulty was reported as failing", {"source": s, "error": it["error"][:200]}))
-            if s not in it["error"] and o not in it["error"]:
+            if named_path(it["error"]) != s:
                 parts = o.split("/")
                 ancestors = ["/".join(parts[:k]) for k in range(1, len(parts))]
                 if disk and any("`%s`" % a in it["error"] for a in ancestors):
                     problems.append(("KNOWN:unwritable-parent", {"source": s, "error": it["error"][:200]}))
                 else:
-                    problems.append(("the error of a failing file does not name its path",
-                                     {"source": s, "error": it["error"][:200]}))
+                    problems.append(("the error of a failing file does not name its source path",
+                                     {"source": s, "output": o, "named": named_path(it["error"]),
+                                      "error": it["error"][:200]}))
+            if o != s and ("`%s`" % o) in it["error"] and not (disk and unwritable(rec, o, run)):
+                problems.append(("the error of a failing file names its output path",
+                                 {"source": s, "output": o, "error": it["error"][:200]}))
             if after.get(o) != before.get(o):
                 problems.append(("something was written for a failing file", {"source": s, "output": o}))
         elif it["status"] == "ok" and s in faulty:
             problems.append(("a faulty file was processed successfully", {"source": s}))
         elif it["status"] == "not_started" and not rec["fail_fast"]:
             problems.append(("an item was left unprocessed without fail-fast", {"source": s}))
+    for (s, o), it in items.items():
+        kind = rec["kinds"].get(s, "")
+        if kind.startswith("Blank") or kind == "CommentOnly":
+            if it["status"] == "err" and not (disk and unwritable(rec, o, run)):
+                problems.append(("an empty / blank / comment-only source is reported as failing",
+                                 {"source": s, "error": it["error"][:200]}))
+            elif it["status"] == "ok":
+                written = after.get(o)
+                if written is None:
+                    problems.append(("an empty / blank / comment-only source got no output", {"source": s, "output": o}))
+                elif not rec.get("stamp") and bytes.fromhex(written).strip() != b"":
+                    problems.append(("the output of an empty / blank / comment-only source is not an empty chunk",
+                                     {"source": s, "output": o, "written": bytes.fromhex(written)[:80].decode("latin-1")}))
     if rec["fail_fast"] and n_err > 1:
         problems.append(("fail-fast run continued after the first error", {"errors": n_err}))
     # order-independent: a run that meets a faulty file reports it, fail-fast or not
@@ -178,6 +197,13 @@ def oracle(rec, run, disk):
     if len(items) == 1 and collected_faulty and n_err != 1:
         problems.append(("the only file of the run is faulty and is not reported", {"source": collected_faulty[0]}))
     return problems
+
+
+def named_path(error):
+    """the path an error message names first: `...` after the leading words"""
+    a = error.find("`")
+    b = error.find("`", a + 1)
+    return error[a + 1:b] if a >= 0 and b > a else None
 
 
 def unwritable(rec, output, run):
@@ -204,8 +230,10 @@ def coq_case(run, rec):
     else:
         items, outcomes = "None", ""
     after = "; ".join("(%s, %s)" % (cpath(p), blob(h)) for p, h in sorted(run["after"].items()))
-    return "(mkCase [%s] %s %s %s %s [%s] [%s])" % (
-        fs, cpath(rec["input"]), out, items, "true" if rec["fail_fast"] else "false", outcomes, after)
+    reported = "; ".join(cpath(named_path(it["error"]) or "<no path in the message>")
+                         for it in run.get("items", []) if it["status"] == "err")
+    return "(mkCase [%s] %s %s %s %s [%s] [%s] [%s])" % (
+        fs, cpath(rec["input"]), out, items, "true" if rec["fail_fast"] else "false", outcomes, after, reported)
 
 
 def two_runs(args):
